@@ -338,7 +338,7 @@ func (g *Gen) valueFor(kind int) string {
 		}
 		return g.pick(kvPool)
 	case KBool, KIncr:
-		return []string{"true", "false", "x", "TRUE"}[g.r.Intn(4)]
+		return []string{"true", "false", "x", "TRUE", "3", "0", "-1", "07"}[g.r.Intn(8)]
 	}
 	switch {
 	case g.pct(15):
@@ -478,7 +478,7 @@ func (g *Gen) GenArgv(p *ProgDef) []string {
 			}
 			attach := g.pct(40)
 			val := g.valueFor(o.Kind)
-			if o.Kind <= KIncr && !g.pct(10) {
+			if o.Kind <= KIncr && !g.pct(18) {
 				attach = false
 			}
 			out = append(out, g.spell(key, p.Mode, attach, val))
